@@ -123,6 +123,11 @@ func (c *Conn) Deliver(b []byte, segs []int) {
 	}
 	rest := b
 	for _, s := range segs {
+		if s == 0 && len(rest) > 0 {
+			// an empty segment: the next Read returns 0 bytes and no error
+			c.rq = append(c.rq, []byte{})
+			continue
+		}
 		if s <= 0 || len(rest) == 0 {
 			continue
 		}
